@@ -19,10 +19,11 @@ RULE = (
     "the end of the run the stored time-step/iterate values are compared bitwise with the shadow list of accepted solutions. "
     "Non-trivial = at least 3 accepted steps or one fired fault; distinct = distinct outcome string over "
     "{conv, landed, failed:<kind>, raised:<kind>}."
+    ' Since the second session: fault kind late_diverge (divergence flagged in the last iteration the Newton loop permits), model families mass+energy balance, momentum balance with contact mechanics, poromechanics, fracture damage (overrides update_solution; full-history variables) and the linear momentum balance (no faults), predictor initial guesses, a limiter rewriting every accepted solution, residual-based convergence on/off; C10 also evaluates its own phrases "ends at the final time" and "within the recomputation budget".'
 )
 STATE_ABSTRACTION = "time-manager abstract state (scheduled_idx, recomp_num, about_to_hit, dt class, relation to next scheduled point) at every observation point"
 ASSUMPTIONS = [
-    "physics: compressible single-phase flow (workload driver) and mass+energy balance / momentum balance with contact mechanics / poromechanics (workload driver_mp), Cartesian 1-16 cell 2-d grids with 0-2 fractures; thermoporomechanics, compositional flow and the fracture-damage example (which overrides update_solution) are not run",
+    "physics: compressible single-phase flow (workload driver) and mass+energy balance / momentum balance with contact mechanics / poromechanics (workload driver_mp), Cartesian 1-16 cell 2-d grids with 0-2 fractures; plus the fracture-damage momentum balance (which overrides update_solution) and the linear momentum balance; thermoporomechanics and compositional flow are not run",
     "faults are injected by overriding check_convergence / solve_linear_system in a model subclass (both call super() first); the export is a no-op in this workload",
     "a run is cut at 60 solve attempts (reported as probe attempt_cap_reached, no verdict for the cut tail)",
 ]
